@@ -104,13 +104,23 @@ void biv_ind_gamma(double *xx, double *yy, double *params, int n, int m,
     margx = malloc(n * sizeof(*xx));
     margy = malloc(m * sizeof(*yy));
 
-    cx = pow(beta1, alpha1) * gamma_func(alpha1);
+    /* Evaluate in log space: beta^alpha*Gamma(alpha) and x^(alpha-1) overflow
+     * for large shape parameters (alpha > ~140). */
+    cx = alpha1*log(beta1) + lgamma(alpha1);
     for(ii=0; ii<n; ii++){
-        margx[ii] = pow(xx[ii], alpha1-1.) * exp(-xx[ii]/beta1) / cx;
+        if (xx[ii] == 0 && alpha1 == 1.){
+            margx[ii] = exp(-cx);
+        } else {
+            margx[ii] = exp((alpha1-1.)*log(xx[ii]) - xx[ii]/beta1 - cx);
+        }
     }
-    cy = pow(beta2, alpha2) * gamma_func(alpha2);
+    cy = alpha2*log(beta2) + lgamma(alpha2);
     for(jj=0; jj<m; jj++){
-        margy[jj] = pow(yy[jj], alpha2-1.) * exp(-yy[jj]/beta2) / cy;
+        if (yy[jj] == 0 && alpha2 == 1.){
+            margy[jj] = exp(-cy);
+        } else {
+            margy[jj] = exp((alpha2-1.)*log(yy[jj]) - yy[jj]/beta2 - cy);
+        }
     }
 
     for(ii=0; ii<n; ii++){
